@@ -101,10 +101,13 @@ def summary():
         det = m.get('detection', {})
         notes = (m.get('what_it_needs') or '').strip().split('\n')
         first = next((l.strip('# ').strip() for l in notes if l.strip()), '')
+        # first detection (the check as it stood when the seed arrived) and the latest regression run over all seeds
+        ret = m.get('retest', {})
+        now = ', '.join(f"{c}:{'caught' if r['rc'] == 1 else ('exit ' + str(r['rc']))}" for c, r in sorted(ret.items())) or '-'
         rows.append((os.path.basename(d), m.get('breaks_property'), m['confirmation'].get('confirmed'),
-                     ', '.join(f"{c}:{'caught' if r['rc'] == 1 else ('exit ' + str(r['rc']))}" for c, r in sorted(det.items())), first[:110]))
+                     ', '.join(f"{c}:{'caught' if r['rc'] == 1 else ('exit ' + str(r['rc']))}" for c, r in sorted(det.items())), now, first[:110]))
     with open(os.path.join(V, 'seeded', 'SUMMARY.md'), 'w') as f:
-        f.write('# Seeded changes and the quick checks that catch them\n\n| id | breaks | confirmed | quick checks | what |\n|---|---|---|---|---|\n')
+        f.write('# Seeded changes and the quick checks that catch them\n\n| id | breaks | confirmed | at first detection | latest retest of all seeds | what |\n|---|---|---|---|---|---|\n')
         for r in rows:
             f.write('| ' + ' | '.join(str(x) for x in r) + ' |\n')
     print(open(os.path.join(V, 'seeded', 'SUMMARY.md')).read())
